@@ -12,7 +12,7 @@ import vlib
 from dkg import tlc_cases
 
 SPEC = os.path.join(vlib.SPECS, 'dkg')
-INVS = ['RunningIffPhase', 'TwoTimeouts', 'EndRule', 'RefusedWhenNotRunning', 'RangeRule', 'Emit']
+INVS = ['RunningIffPhase', 'TwoTimeouts', 'EndRule', 'RefusedWhenNotRunning', 'RangeRule', 'LifeInv', 'Emit']
 ROLES = [('qual', 1), ('qual', 0), ('jf', 1), ('jf', 0), ('fvss', 1), ('fvss', 0)]
 
 
@@ -47,7 +47,7 @@ def run(prop, tier):
       for pname, prefix in PREFIXES:
         tail = L if not prefix else L - 1
         res = vlib.tlc(SPEC, 'DKGApi', vlib.cfg(consts(proto, me, len(prefix) + tail, prefix), invariants=INVS,
-                                                properties=['RejectedStutters']), name='api', timeout=1800, defs=pdef(prefix))
+                                                properties=['RejectedStutters', 'RefinesLife']), name='api', timeout=1800, defs=pdef(prefix))
         if not res.ok:
             raise vlib.Undecided('DKGApi model %s/%d: %s %s\n%s' % (proto, me, res.violated, res.error, res.out[-1500:]))
         ck.add_states(res, '%s me=%d prefix "%s" + all call sequences of length %d' % (proto, me, pname, tail))
@@ -63,6 +63,17 @@ def run(prop, tier):
             raise vlib.Undecided('DKGApi simulation %s/%d violates %s' % (proto, me, res.violated))
         for c in tlc_cases(res.out):
             cases.append(dict(c, proto=proto, me=me, src='simulate'))
+    # call sequences of EVERY length: the life cycle that every step above refines (RefinesLife, LifeInv) has an inductive invariant (TLAPS)
+    import time
+    t0 = time.time()
+    proved, total, out = vlib.tlapm(SPEC, 'DKGLifeProof', timeout=900, name='lifeproof')
+    ck.cov['tlaps_proof'] = {'module': 'DKGLifeProof', 'theorems': ['InitInv', 'Consecution', 'Safety (Spec => []IndInv)', 'StepProperties'],
+                             'obligations_proved': proved, 'obligations': total, 'wall_s': round(time.time() - t0, 1),
+                             'bound_to_the_model_by': 'RefinesLife / LifeInv checked by TLC on every DKGApi configuration'}
+    if proved >= 0 and proved < total:
+        raise vlib.Undecided('TLAPS: %d of %d obligations of DKGLifeProof fail: the proof or the model is wrong\n%s' % (total - proved, total, out[-1500:]))
+    if proved < 0:
+        ck.notes.append('tlapm did not run to completion (supplementary unbounded argument, not a verdict on the code)')
     vh = vlib.build_vh()
     cp = os.path.join(vlib.subdir('scripts'), 'api.ndjson')
     with open(cp, 'w') as f:
